@@ -14,12 +14,15 @@
 (*                  file handed to casket.Start                            *)
 (*   Reload         Instance.Restart with the slots rotated (another       *)
 (*                  certificate first for the same names)                  *)
+(*   ReloadBad, RestartFailed   Instance.Restart with a file that is       *)
+(*                  refused half-way: the new instance and its cache are   *)
+(*                  dropped, the old instance goes on serving              *)
 (* casket.go executeDirectives + caskettls/setup.go setupTLS (per site, in *)
 (* file order; one action per step):                                       *)
 (*   LineOff        `tls off`: Enabled = false, return at once             *)
 (*   LinePair       `tls cert key`: CacheUnmanagedCertificatePEMFile       *)
-(*   LineBare       a `tls { ... }` block without certificate             *)
-(*   LineSelf       `tls self_signed`: flag only                           *)
+(*   LineBare       a `tls { ... }` block without certificate, or          *)
+(*                  `tls self_signed` (only a flag for now)                *)
 (*   WalkEntry      `tls { load dir }`: ONE entry of loadCertsInDir's      *)
 (*                  filepath.Walk (directory / not *.pem / bundle / bad)   *)
 (*   EndDir         the walk is over                                       *)
@@ -34,8 +37,9 @@
 (*                  GetCertificate) answers - every Config of the instance *)
 (*                  points to the SAME cache (NewConfig)                   *)
 (*   Normalize      normalizedName(hello.ServerName)                       *)
-(*   TryLocalIP, TryDefaultName   no SNI: the local address, then          *)
-(*                  -default-sni (certmagic DefaultServerName)             *)
+(*   TryLocalIP, TryDefaultName   no SNI: the address the connection came  *)
+(*                  in on (listener 1: 127.0.0.1, listener 2: 127.0.0.2),  *)
+(*                  then -default-sni (certmagic DefaultServerName)         *)
 (*   TryCandidate   exact name, then one more leading label starred        *)
 (*   Consider, SelectorEnd   DefaultCertificateSelector, one loop          *)
 (*                  iteration: first supported and current; else the last  *)
@@ -51,13 +55,14 @@
 (* LoadFailsIffBad, SelectionRule (MostSpecificWins as the code has it),   *)
 (* CertCoversName, NoCrossSiteKeyUse, KeyTypeNegotiation,                  *)
 (* UnexpiredPreferred, ExpiredStillServed, ListenerIndependent,            *)
-(* ReloadReplacesCertificates.  ListenerScoped and StrictSiteKeys are the  *)
-(* two readings that do NOT hold (one cache per instance, by design).      *)
+(* ReloadReplacesCertificates, FailedReloadKeepsCertificates.              *)
+(* ListenerScoped and StrictSiteKeys are the two readings that do NOT hold *)
+(* (one cache per instance, by design; CertSelect_scoped.cfg, by hand).    *)
 (*                                                                         *)
 (* Deliberate deviations: TLS settings are the defaults on every site      *)
 (* (TLSGroup / TLSDirective vary them); PEM parsing is abstract (a file is *)
-(* a bundle, key first or certificate first, or one of six malformed       *)
-(* kinds); OCSP stapling, managed certificates and the cache capacity are  *)
+(* bundle - certificate first, key first, with an EC PARAMETERS block - or *)
+(* one of six malformed kinds); OCSP stapling, managed certificates and the cache capacity are  *)
 (* absent; FallbackServerName cannot be set through casket and is empty.   *)
 (***************************************************************************)
 EXTENDS Naturals, Sequences, FiniteSets, TLC, Json, HostMatch
@@ -201,13 +206,13 @@ DefaultName(t) == IF t = "dflt" THEN A ELSE CA          \* certmagic.Default.Def
 \* ================================ state ===========================================
 VARIABLES topo, slots, prev, gen, sites,  \* the file: layout, load slots, (after a reload) the slots before, generation
           pc, si, li, fi,                 \* control point; site / line / directory entry being set up
-          cache, index, oldcache,         \* the instance's certificate cache (hashes in insertion order), its name index; the previous instance's
+          cache, index, oldcache, oldtab, \* the instance's certificate cache (hashes in insertion order), its name index; the previous instance's cache and answers
           enabled, err,                   \* per site: TLS enabled; load error class
           cmaps,                          \* listener -> (host -> site): the config groups
           lst, hi, oi,                    \* the probe: listener, hello, offer
           gov, name, k, choices, ci, best, leaf,   \* getConfig's site; certmagic's locals
           res, tab                        \* the outcome of this probe; all outcomes so far
-vars == <<topo, slots, prev, gen, sites, pc, si, li, fi, cache, index, oldcache, enabled, err, cmaps, lst, hi, oi,
+vars == <<topo, slots, prev, gen, sites, pc, si, li, fi, cache, index, oldcache, oldtab, enabled, err, cmaps, lst, hi, oi,
           gov, name, k, choices, ci, best, leaf, res, tab>>
 
 NoIndex == [n \in {} |-> <<>>]
@@ -220,12 +225,12 @@ Range(s) == {s[i] : i \in 1..Len(s)}
 
 Init == /\ topo = "" /\ slots = <<>> /\ prev = <<>> /\ gen = 1 /\ sites = <<>>
         /\ pc = "topo" /\ si = 1 /\ li = 1 /\ fi = 1
-        /\ cache = <<>> /\ index = NoIndex /\ oldcache = <<>> /\ enabled = <<>> /\ err = "" /\ cmaps = NoMaps
+        /\ cache = <<>> /\ index = NoIndex /\ oldcache = <<>> /\ oldtab = <<>> /\ enabled = <<>> /\ err = "" /\ cmaps = NoMaps
         /\ lst = 1 /\ hi = 1 /\ oi = 1 /\ gov = 0 /\ name = CA /\ k = 1 /\ choices = <<>> /\ ci = 1 /\ best = "" /\ leaf = ""
         /\ res = NoRes /\ tab = <<>>
 
 \* ================================ the author ========================================
-setupVars == <<si, li, fi, cache, index, oldcache, enabled, err, cmaps>>
+setupVars == <<si, li, fi, cache, index, oldcache, oldtab, enabled, err, cmaps>>
 probeVars == <<lst, hi, oi, gov, name, k, choices, ci, best, leaf, res, tab>>
 ChooseTopo(t) == /\ pc = "topo" /\ topo' = t /\ pc' = "pick"
                  /\ UNCHANGED <<slots, prev, gen, sites>> /\ UNCHANGED setupVars /\ UNCHANGED probeVars
@@ -237,13 +242,13 @@ PickCert(c) == /\ pc = "pick" /\ Len(slots) < MaxArity(topo) /\ c \notin Range(s
 Load == /\ pc = "pick" /\ Len(slots) \in Arity(topo)
         /\ sites' = Sites(topo, slots) /\ enabled' = [i \in 1..Len(Sites(topo, slots)) |-> TRUE]
         /\ pc' = "setup"
-        /\ UNCHANGED <<topo, slots, prev, gen, si, li, fi, cache, index, oldcache, err, cmaps>> /\ UNCHANGED probeVars
+        /\ UNCHANGED <<topo, slots, prev, gen, si, li, fi, cache, index, oldcache, oldtab, err, cmaps>> /\ UNCHANGED probeVars
 
 \* ================================ setupTLS, site by site ===============================
 site == sites[si]
 line == site.lines[li]
 AtLine == pc = "setup" /\ si <= Len(sites) /\ li <= Len(site.lines)
-Rest == <<topo, slots, prev, gen, sites, oldcache, cmaps>>
+Rest == <<topo, slots, prev, gen, sites, oldcache, oldtab, cmaps>>
 \* certmagic Cache.cacheCertificate
 CacheSet(c) == IF c \in Range(cache) THEN UNCHANGED <<cache, index>>
                ELSE /\ cache' = Append(cache, c)
@@ -297,11 +302,11 @@ GroupOf(l) == LET S == {i \in 1..Len(sites) : sites[i].lst = l /\ enabled[i]} IN
 MakeServers == /\ pc = "setup" /\ si > Len(sites)
                /\ cmaps' = [l \in Listeners |-> GroupOf(l)]
                /\ pc' = "probe" /\ lst' = 1 /\ hi' = 1 /\ oi' = 1
-               /\ UNCHANGED <<topo, slots, prev, gen, sites, si, li, fi, cache, index, oldcache, enabled, err>>
+               /\ UNCHANGED <<topo, slots, prev, gen, sites, si, li, fi, cache, index, oldcache, oldtab, enabled, err>>
                /\ UNCHANGED <<gov, name, k, choices, ci, best, leaf, res, tab>>
 
 \* ================================ one handshake ======================================
-Fixed == <<topo, slots, prev, gen, sites, si, li, fi, cache, index, oldcache, enabled, err, cmaps, lst, hi, oi, tab>>
+Fixed == <<topo, slots, prev, gen, sites, si, li, fi, cache, index, oldcache, oldtab, enabled, err, cmaps, lst, hi, oi, tab>>
 TLSListener(l) == DOMAIN cmaps[l] # {}
 Lower(n) == n                                \* names are kept lower-case; spelling is in hello.sp / Cert.up
 \* caskettls configGroup.getConfig (TLSGroup.tla has it step by step)
@@ -379,7 +384,7 @@ Record == /\ pc = "rec"
              ELSE LET p == CHOOSE p \in later : \A q \in later : p = q \/ Before(p, q) IN
                   lst' = p[1] /\ hi' = p[2] /\ oi' = p[3] /\ pc' = "probe"
           /\ res' = NoRes /\ gov' = 0 /\ name' = CA /\ k' = 1 /\ choices' = <<>> /\ ci' = 1 /\ best' = "" /\ leaf' = ""
-          /\ UNCHANGED <<topo, slots, prev, gen, sites, si, li, fi, cache, index, oldcache, enabled, err, cmaps>>
+          /\ UNCHANGED <<topo, slots, prev, gen, sites, si, li, fi, cache, index, oldcache, oldtab, enabled, err, cmaps>>
 
 \* ================================ reload ==============================================
 \* Instance.Restart: a NEW instance (its own Storage, hence its own certificate cache) is set up from the new
@@ -389,9 +394,26 @@ NextSlots(s) == IF Len(s) >= 2 THEN Tail(s) \o <<Head(s)>> ELSE << Sibling(s[1])
 Reload == /\ pc = "done" /\ gen = 1 /\ topo \in ReloadTopos /\ Len(slots) >= 1
           /\ gen' = 2 /\ prev' = slots /\ slots' = NextSlots(slots)
           /\ sites' = Sites(topo, NextSlots(slots)) /\ enabled' = [i \in 1..Len(Sites(topo, NextSlots(slots))) |-> TRUE]
-          /\ oldcache' = cache /\ cache' = <<>> /\ index' = NoIndex
+          /\ oldcache' = cache /\ oldtab' = tab /\ cache' = <<>> /\ index' = NoIndex
           /\ pc' = "setup" /\ si' = 1 /\ li' = 1 /\ fi' = 1 /\ tab' = <<>> /\ lst' = 1 /\ hi' = 1 /\ oi' = 1
           /\ UNCHANGED <<topo, err, cmaps, gov, name, k, choices, ci, best, leaf, res>>
+\* a reload whose file is refused: the old file plus one more site whose key does not fit its certificate. The new
+\* instance gets as far as that line (its cache fills up) and is thrown away; the old instance goes on serving.
+\* gen = 3: the refused file is being set up; gen = 4: the old instance after Restart has returned its error
+RefusedFile(t, s) == Append(Sites(t, s), Site(1, Z, << Ln("pairbad", s[1], <<>>) >>))
+ReloadBad == /\ pc = "done" /\ gen = 1 /\ topo \in ReloadTopos /\ Len(slots) >= 1
+             /\ gen' = 3
+             /\ sites' = RefusedFile(topo, slots) /\ enabled' = [i \in 1..Len(RefusedFile(topo, slots)) |-> TRUE]
+             /\ oldcache' = cache /\ oldtab' = tab /\ cache' = <<>> /\ index' = NoIndex
+             /\ pc' = "setup" /\ si' = 1 /\ li' = 1 /\ fi' = 1 /\ tab' = <<>> /\ lst' = 1 /\ hi' = 1 /\ oi' = 1
+             /\ UNCHANGED <<topo, slots, prev, err, cmaps, gov, name, k, choices, ci, best, leaf, res>>
+IndexFor(cs) == [n \in UNION {CMNames(cs[i]) : i \in 1..Len(cs)} |-> LET Has(c) == n \in CMNames(c) IN SelectSeq(cs, Has)]
+RestartFailed == /\ pc = "failed" /\ gen = 3
+                 /\ gen' = 4 /\ err' = ""
+                 /\ sites' = Sites(topo, slots) /\ enabled' = [i \in 1..Len(Sites(topo, slots)) |-> TRUE]   \* the serving instance's file
+                 /\ cache' = oldcache /\ index' = IndexFor(oldcache)           \* ... and its cache, untouched
+                 /\ pc' = "probe" /\ si' = Len(Sites(topo, slots)) + 1 /\ li' = 1 /\ fi' = 1 /\ tab' = <<>> /\ lst' = 1 /\ hi' = 1 /\ oi' = 1
+                 /\ UNCHANGED <<topo, slots, prev, oldcache, oldtab, cmaps, gov, name, k, choices, ci, best, leaf, res>>
 
 Next == \/ \E t \in Topos : ChooseTopo(t)
         \/ \E c \in CertIds : PickCert(c)
@@ -399,7 +421,7 @@ Next == \/ \E t \in Topos : ChooseTopo(t)
         \/ LineOff \/ LinePair \/ LineBare \/ WalkEntry \/ EndDir \/ SelfSign \/ StoreConfig \/ MakeServers
         \/ PlainListener \/ GetConfig \/ Normalize \/ TryLocalIP \/ TryDefaultName \/ TryCandidate
         \/ Consider \/ SelectorEnd \/ NoCertificate \/ ServerHandshake \/ ClientVerify \/ Record
-        \/ Reload
+        \/ Reload \/ ReloadBad \/ RestartFailed
 Spec == Init /\ [][Next]_vars
 
 \* ================================ the declarative part ====================================
@@ -507,6 +529,8 @@ ListenerIndependent == (pc = "done") => \A i, j \in 1..Len(tab) : SameProbe(tab[
 \* after a reload the cache is the new file's (CacheMatchesFile speaks about `sites`, the new file) and no
 \* certificate only the old file named is served
 ReloadReplacesCertificates == (gen = 2 /\ Judged /\ res.out = "ok") => res.leaf \in Range(AllLoads(sites))
+\* a reload that is refused changes nothing: the same answers as before it
+FailedReloadKeepsCertificates == (gen = 4 /\ pc = "done") => tab = oldtab
 ResultShape == Judged => /\ res.out \in {"ok", "nocert", "nosuite"}
                          /\ (res.out = "ok" <=> res.leaf # "")
 \* what the replay may accept instead of the modelled leaf where only determinism is judged (every usable
